@@ -150,7 +150,10 @@ def processLine (st : CSt) (line : String) : IO CSt := do
       let tmpFail := match name, op with
         | "tmpfail", [b] => b != 0
         | _, _ => st.tmpFail
-      let secs := if name = "secs" then secsOf op else st.secs
+      let secs := if name = "secs" then secsOf op
+        else if name = "secsmb" then (secsOf op).filterMap fun s =>
+          if s.size = 0 then none else some { s with flags := s.flags % 2 ^ 32 }
+        else st.secs
       return { st with prev := if post.aborted then st.prev else post, queue := queue, tmpFail := tmpFail, secs := secs }
   | _ =>
     match toks line with
